@@ -162,18 +162,20 @@ impl Superset for syn::TypeBareFn {
             return None;
         }
 
-        if let (Some(abi1), Some(abi2)) = (&self.abi, &other.abi) {
-            let c_abi = syn::parse_quote!("C");
+        match (&self.abi, &other.abi) {
+            (Some(abi1), Some(abi2)) => {
+                let c_abi = syn::parse_quote!("C");
 
-            match (&abi1.name, &abi2.name) {
-                (Some(x1), None) if *x1 == c_abi => {}
-                (None, Some(x2)) if *x2 == c_abi => {}
-                (Some(x1), Some(x2)) if x1 == x2 => {}
-                (None, None) => {}
-                _ => return None,
+                match (&abi1.name, &abi2.name) {
+                    (Some(x1), None) if *x1 == c_abi => {}
+                    (None, Some(x2)) if *x2 == c_abi => {}
+                    (Some(x1), Some(x2)) if x1 == x2 => {}
+                    (None, None) => {}
+                    _ => return None,
+                }
             }
-        } else {
-            return None;
+            (None, None) => {}
+            _ => return None,
         }
 
         self.lifetimes
